@@ -15,6 +15,8 @@ use std::num::NonZeroUsize;
 use std::sync::Arc;
 use std::time::Duration;
 
+/// Counts chaos events (to detect a quiet period after one).
+static CHAOS_COUNT: std::sync::atomic::AtomicU64 = std::sync::atomic::AtomicU64::new(0);
 /// Bumped by every change of the ring membership / host ids.
 static TOPO_VERSION: std::sync::atomic::AtomicU64 = std::sync::atomic::AtomicU64::new(0);
 
@@ -73,6 +75,7 @@ pub fn run(req: &RunRequest) -> Value {
 async fn main(plan: Plan) -> Outcome {
     let mut out = Outcome::default();
     TOPO_VERSION.store(0, std::sync::atomic::Ordering::SeqCst);
+    CHAOS_COUNT.store(0, std::sync::atomic::Ordering::SeqCst);
     let cfg = SessionCfg {
         contact_nodes: vec![0],
         pool: PoolSize::PerHost(NonZeroUsize::new(1).unwrap()),
@@ -102,6 +105,9 @@ async fn main(plan: Plan) -> Outcome {
         ));
     }
     evs.sort();
+    let late: Arc<std::sync::Mutex<Vec<String>>> = Arc::new(std::sync::Mutex::new(Vec::new()));
+    let late2 = late.clone();
+    let session2 = session.clone();
     let chaos = tokio::spawn(async move {
         let t0 = world::now_ns();
         for (at, kind, pick, with_event) in evs {
@@ -109,6 +115,7 @@ async fn main(plan: Plan) -> Outcome {
             if at > now {
                 world::sleep_ns(at - now).await;
             }
+            CHAOS_COUNT.fetch_add(1, std::sync::atomic::Ordering::SeqCst);
             let mut w = world::world();
             match kind {
                 0 => {
@@ -122,6 +129,32 @@ async fn main(plan: Plan) -> Outcome {
                         if with_event {
                             let ip = w.cluster.nodes[n].ip;
                             w.broadcast_event("TOPOLOGY_CHANGE", wire::body_event_topology("NEW_NODE", ip, 9042));
+                            // If nothing else happens for a while, the announced node must
+                            // show up in the published state without any explicit refresh.
+                            let host = w.cluster.nodes[n].host_id;
+                            let seen = CHAOS_COUNT.load(std::sync::atomic::Ordering::SeqCst);
+                            let has_cc = w.conns.iter().any(|c| !c.srv_closed && !c.client_closed && !c.cql.registered.is_empty());
+                            if has_cc {
+                                let session = session2.clone();
+                                let late = late2.clone();
+                                tokio::spawn(async move {
+                                    world::sleep_ns(6 * SEC).await;
+                                    if CHAOS_COUNT.load(std::sync::atomic::Ordering::SeqCst) != seen {
+                                        return;
+                                    }
+                                    let published = session
+                                        .get_cluster_state()
+                                        .get_nodes_info()
+                                        .iter()
+                                        .any(|n| *n.host_id.as_bytes() == host);
+                                    if !published {
+                                        late.lock().unwrap().push(format!(
+                                            "node {n} joined and NEW_NODE was sent at {} ms; 6 quiet seconds later the published state still lacks it",
+                                            (world::now_ns() - 6 * SEC) / MS
+                                        ));
+                                    }
+                                });
+                            }
                         }
                     }
                 }
@@ -261,6 +294,10 @@ async fn main(plan: Plan) -> Outcome {
         }
     }
     let _ = chaos.await;
+    world::sleep_ns(7 * SEC).await;
+    for m in late.lock().unwrap().iter() {
+        out.violation("c19.event_not_reflected", m.clone());
+    }
     // Quiescence: faults stopped. One explicit refresh must be answered, and after
     // it (or a refresh interval) the published node set equals the cluster's.
     world::sleep_ns(8 * SEC).await;
